@@ -29,8 +29,21 @@ structure SimpleClass (env : Env) (d : ClassDef) : Prop where
   nodup : (d.params.map (·.name)).Nodup
   args : ∀ prm ∈ d.params, d.argNames.contains prm.name = true ∧ prm.name ≠ "_yatiml_extra" ∧ prm.name ≠ "self"
 
-/-- values of a type: plain data as in `HasTy`, and objects of simple classes carrying one value of the
-declared type per constructor parameter, in declaration order, that the constructor accepted -/
+/-- `Optional[T]`, as `typing` normalises it: `Union[T, None]` -/
+def optTy (T : Ty) : Ty := .union (.cons T (.cons .null .nil))
+
+/-- the types `Optional[...]` may wrap here: anything of the fragment but `None` and another Optional -/
+inductive NonNullTy (env : Env) : Ty → Prop
+  | str : NonNullTy env .str
+  | int : NonNullTy env .int
+  | bool : NonNullTy env .bool
+  | seq (k : SeqKind) (item : Ty) : NonNullTy env (.seq k item)
+  | map (k : MapKind) (V : Ty) : NonNullTy env (.map k .str V)
+  | cls (d : ClassDef) : SimpleClass env d → NonNullTy env (.cls d.name)
+
+/-- values of a type: plain data as in `HasTy`, objects of simple classes carrying one value of the
+declared type per constructor parameter, in declaration order, that the constructor accepted, and
+`Optional[T]` positions holding `None` or a value of `T` -/
 inductive HasTyE (env : Env) : Ty → PyVal → Prop
   | str (s : String) : HasTyE env .str (.scalar (.str s))
   | int (i : Int) : HasTyE env .int (.scalar (.int i))
@@ -46,23 +59,25 @@ inductive HasTyE (env : Env) : Ty → PyVal → Prop
       (∀ e ∈ kw.toList, ∀ prm ∈ d.params, e.1 = strKey prm.name → HasTyE env prm.ty e.2) →
       d.initRaises (scalarArgs kw.toList) = false →
       HasTyE env (.cls d.name) (.obj d.name kw)
+  | optNone (T : Ty) : NonNullTy env T → HasTyE env (optTy T) (.scalar .none)
+  | optSome (T : Ty) (v : PyVal) : NonNullTy env T → HasTyE env T v → HasTyE env (optTy T) v
 
 -- how much fuel the loader needs for the node of a value
 mutual
 def need : PyVal → Nat
-  | .list xs => 1 + needL xs
-  | .dict kvs => 1 + needK kvs
-  | .obj _ kw => 2 + needK kw
-  | _ => 1
+  | .list xs => 3 + needL xs
+  | .dict kvs => 3 + needK kvs
+  | .obj _ kw => 4 + needK kw
+  | _ => 3
 def needL : PyVals → Nat
   | .nil => 0
   | .cons x xs => max (need x) (needL xs)
 def needK : PyKVs → Nat
-  | .nil => 1
+  | .nil => 2
   | .cons _ v r => max (need v) (needK r)
 end
 
-theorem need_pos (v : PyVal) : 1 ≤ need v := by cases v <;> simp [need] <;> omega
+theorem need_pos (v : PyVal) : 3 ≤ need v := by cases v <;> simp only [need] <;> omega
 
 theorem needL_mem : ∀ (xs : PyVals) (x : PyVal), x ∈ xs.toList → need x ≤ needL xs
   | .nil, _, h => by simp [PyVals.toList] at h
@@ -82,7 +97,7 @@ theorem needK_mem : ∀ (kvs : PyKVs) (e : PyVal × PyVal), e ∈ kvs.toList →
     · exact Nat.le_max_left _ _
     · exact Nat.le_trans (needK_mem r e h) (Nat.le_max_right _ _)
 
-theorem needK_pos : ∀ (kvs : PyKVs), 1 ≤ needK kvs
+theorem needK_pos : ∀ (kvs : PyKVs), 2 ≤ needK kvs
   | .nil => by simp [needK]
   | .cons _ v r => by simp only [needK]; exact Nat.le_trans (needK_pos r) (Nat.le_max_right _ _)
 
@@ -108,26 +123,54 @@ theorem typeMatchesKVs_of (env : Env) (V : Ty) : ∀ (kvs : PyKVs),
       typeMatchesKVs_of env V r (fun e he => hk e (by simp [PyKVs.toList, he]))
         (fun e he => hv e (by simp [PyKVs.toList, he]))⟩
 
+theorem nonNull_not_opt (env : Env) (T : Ty) (h : NonNullTy env T) : ∀ T', T ≠ optTy T' := by
+  intro T' e
+  cases h <;> simp [optTy] at e
+
+theorem hasTyE_typeMatches_core (env : Env) (n : Nat)
+    (ih : ∀ (T : Ty) (v : PyVal), need v ≤ n → HasTyE env T v → typeMatches env v T = true) :
+    ∀ (T : Ty) (v : PyVal), need v ≤ n + 1 → HasTyE env T v → (∀ T', T ≠ optTy T') →
+      typeMatches env v T = true := by
+  intro T v hn h hno
+  cases h with
+  | str s => simp [typeMatches]
+  | int i => simp [typeMatches]
+  | bool b => simp [typeMatches]
+  | null => simp [typeMatches]
+  | seq k item xs hx =>
+    simp only [typeMatches]
+    simp only [need] at hn
+    exact typeMatchesAll_of env item xs (fun x hxm =>
+      ih item x (by have := needL_mem xs x hxm; omega) (hx x hxm))
+  | map k V kvs hk hv _ =>
+    simp only [typeMatches]
+    simp only [need] at hn
+    exact typeMatchesKVs_of env V kvs hk (fun e hem =>
+      ih V e.2 (by have := needK_mem kvs e hem; omega) (hv e hem))
+  | obj d kw _ _ _ _ => simp [typeMatches, isInstanceOf]
+  | optNone T _ => exact absurd rfl (hno T)
+  | optSome T v _ _ => exact absurd rfl (hno T)
+
 theorem hasTyE_typeMatches (env : Env) : ∀ (n : Nat) (T : Ty) (v : PyVal), need v ≤ n → HasTyE env T v →
     typeMatches env v T = true
   | 0, _, v, hn, _ => by have := need_pos v; omega
   | n + 1, T, v, hn, h => by
+    have ih := hasTyE_typeMatches env n
     cases h with
-    | str s => simp [typeMatches]
-    | int i => simp [typeMatches]
-    | bool b => simp [typeMatches]
-    | null => simp [typeMatches]
+    | optNone T _ => simp [optTy, typeMatches, typeMatchesAny]
+    | optSome T v hnn hin =>
+      have := hasTyE_typeMatches_core env n ih T v hn hin (nonNull_not_opt env T hnn)
+      simp [optTy, typeMatches, typeMatchesAny, this]
+    | str s => exact hasTyE_typeMatches_core env n ih _ _ hn (HasTyE.str s) (by intro T' e; simp [optTy] at e)
+    | int i => exact hasTyE_typeMatches_core env n ih _ _ hn (HasTyE.int i) (by intro T' e; simp [optTy] at e)
+    | bool b => exact hasTyE_typeMatches_core env n ih _ _ hn (HasTyE.bool b) (by intro T' e; simp [optTy] at e)
+    | null => exact hasTyE_typeMatches_core env n ih _ _ hn HasTyE.null (by intro T' e; simp [optTy] at e)
     | seq k item xs hx =>
-      simp only [typeMatches]
-      simp only [need] at hn
-      exact typeMatchesAll_of env item xs (fun x hxm =>
-        hasTyE_typeMatches env n item x (by have := needL_mem xs x hxm; omega) (hx x hxm))
-    | map k V kvs hk hv _ =>
-      simp only [typeMatches]
-      simp only [need] at hn
-      exact typeMatchesKVs_of env V kvs hk (fun e hem =>
-        hasTyE_typeMatches env n V e.2 (by have := needK_mem kvs e hem; omega) (hv e hem))
-    | obj d kw _ _ _ _ => simp [typeMatches, isInstanceOf]
+      exact hasTyE_typeMatches_core env n ih _ _ hn (HasTyE.seq k item xs hx) (by intro T' e; simp [optTy] at e)
+    | map k V kvs hk hv hko =>
+      exact hasTyE_typeMatches_core env n ih _ _ hn (HasTyE.map k V kvs hk hv hko) (by intro T' e; simp [optTy] at e)
+    | obj d kw hS h1 h2 h3 =>
+      exact hasTyE_typeMatches_core env n ih _ _ hn (HasTyE.obj d kw hS h1 h2 h3) (by intro T' e; simp [optTy] at e)
 
 /-! ### recognising the node of a simple object -/
 
@@ -207,166 +250,329 @@ theorem keysDistinct_congr (ps qs : List (Node × Node)) (h : ps.map (·.1) = qs
   unfold KeysDistinct at *
   rw [h]; exact hq
 
-theorem simple_described (env : Env) (denv : DumpEnv) (tbl : List Entry) (hns : C07.NoSweeten denv) :
-    ∀ (g : Nat) (T : Ty) (v : PyVal) (o : RepOut), represent denv g v = .ok o → HasTyE env T v →
-      ∀ f, need v ≤ f → RT env tbl f T v o.node
-  | 0, _, _, _, h, _, _, _ => by simp [represent] at h
-  | g + 1, T, v, o, h, ht, f, hf => by
-    obtain ⟨f, rfl⟩ : ∃ f', f = f' + 1 := ⟨f - 1, by have := need_pos v; omega⟩
-    cases ht with
-    | str s =>
-      simp only [represent, representScalar] at h; cases h
-      exact ⟨.str, [okLeaf], by simp [recognize, recognizeReq, recScalar, recOk], RTcore.str s _⟩
-    | int i =>
-      simp only [represent, representScalar] at h; cases h
-      exact ⟨.int, [okLeaf], by simp [recognize, recognizeReq, recScalar, recOk],
-        RTcore.int i _ _ (constructInt_int i)⟩
-    | bool b =>
-      simp only [represent, representScalar] at h; cases h
-      refine ⟨.bool, [okLeaf], by simp [recognize, recognizeReq, recScalar, recOk], RTcore.bool b _ _ ?_⟩
-      cases b <;> decide
-    | null =>
-      simp only [represent, representScalar] at h; cases h
-      exact ⟨.null, [okLeaf], by simp [recognize, recognizeReq, recScalar, recOk], RTcore.null _ _⟩
-    | seq k item xs hx =>
-      simp only [represent] at h
-      split at h
-      · cases h
-      · rename_i ns tr hitems
-        cases h
-        simp only [need] at hf
-        have ha := repItems_all2 (represent denv g) xs.toList ns tr hitems
-        have hrt : All2 (RT env tbl f item) xs.toList ns :=
-          all2_imp_mem ha (fun x hxm n ⟨o, ho, hn⟩ => hn ▸
-            simple_described env denv tbl hns g item x o ho (hx x hxm) f (by have := needL_mem xs x hxm; omega))
-        have huniq : ∀ n ∈ ns, Unique (recognizeReq env f n (.ty item)) := by
-          intro n hn
-          obtain ⟨x, _, hr⟩ := all2_mem_right hrt n hn
-          exact rt_unique hr
-        refine ⟨.seq k item, [okLeaf], ?_, RTcore.seq k item xs (Nodes.ofList ns) _ (by simpa using hrt)⟩
-        simp only [recognize, recognizeReq, recList, Nodes.toList_ofList]
-        exact recListItems_unique _ _ _ ns huniq
-    | map k V kvs hes hev hk =>
-      simp only [represent] at h
+/-! ### what is shown of a represented node: which type it is recognised as, and its shape -/
+
+/-- the type recognition settles on: the declared type itself, or - for `Optional[T]` - `None`'s or `T` -/
+def resolvedTy (T : Ty) (v : PyVal) : Ty :=
+  match T with
+  | .union (.cons T0 (.cons .null .nil)) => if v = .scalar .none then .null else T0
+  | _ => T
+
+def DescAt (env : Env) (tbl : List Entry) (f : Nat) (T R : Ty) (v : PyVal) (n : Node) : Prop :=
+  ∃ l, recognize env f n T = .ok ([R], l) ∧ ∃ f', f = f' + 1 ∧ RTcore env tbl f' (RT env tbl f') R v n
+
+def Desc (env : Env) (tbl : List Entry) (f : Nat) (T : Ty) (v : PyVal) (n : Node) : Prop :=
+  DescAt env tbl f T (resolvedTy T v) v n
+
+theorem desc_rt {env : Env} {tbl : List Entry} {f : Nat} {T R : Ty} {v : PyVal} {n : Node}
+    (h : DescAt env tbl f T R v n) : RT env tbl f T v n := by
+  obtain ⟨l, hr, f', rfl, hc⟩ := h
+  exact ⟨R, l, hr, hc⟩
+
+theorem resolved_self (T : Ty) (v : PyVal) (hno : ∀ T', T ≠ optTy T') : resolvedTy T v = T := by
+  unfold resolvedTy
+  split
+  · rename_i T0
+    exact absurd rfl (hno T0)
+  · rfl
+
+theorem desc_core (env : Env) (denv : DumpEnv) (tbl : List Entry) (hns : C07.NoSweeten denv) (g : Nat)
+    (IH : ∀ (T : Ty) (v : PyVal) (o : RepOut), represent denv g v = .ok o → HasTyE env T v →
+      ∀ f, need v ≤ f → Desc env tbl f T v o.node) :
+    ∀ (T : Ty) (v : PyVal) (o : RepOut), represent denv (g + 1) v = .ok o → HasTyE env T v →
+      (∀ T', T ≠ optTy T') → ∀ f, need v ≤ f + 1 → DescAt env tbl f T T v o.node := by
+  intro T v o h ht hno f hf
+  have simple_described : ∀ (T : Ty) (v : PyVal) (o : RepOut), represent denv g v = .ok o → HasTyE env T v →
+      ∀ f, need v ≤ f → RT env tbl f T v o.node :=
+    fun T v o h ht f hf => desc_rt (IH T v o h ht f hf)
+  obtain ⟨f, rfl⟩ : ∃ f', f = f' + 1 := ⟨f - 1, by have := need_pos v; omega⟩
+  cases ht with
+  | optNone T _ => exact absurd rfl (hno T)
+  | optSome T v _ _ => exact absurd rfl (hno T)
+  | str s =>
+    simp only [represent, representScalar] at h; cases h
+    exact ⟨[okLeaf], by simp [recognize, recognizeReq, recScalar, recOk], f, rfl, RTcore.str s _⟩
+  | int i =>
+    simp only [represent, representScalar] at h; cases h
+    exact ⟨[okLeaf], by simp [recognize, recognizeReq, recScalar, recOk], f, rfl,
+      RTcore.int i _ _ (constructInt_int i)⟩
+  | bool b =>
+    simp only [represent, representScalar] at h; cases h
+    refine ⟨[okLeaf], by simp [recognize, recognizeReq, recScalar, recOk], f, rfl, RTcore.bool b _ _ ?_⟩
+    cases b <;> decide
+  | null =>
+    simp only [represent, representScalar] at h; cases h
+    exact ⟨[okLeaf], by simp [recognize, recognizeReq, recScalar, recOk], f, rfl, RTcore.null _ _⟩
+  | seq k item xs hx =>
+    simp only [represent] at h
+    split at h
+    · cases h
+    · rename_i ns tr hitems
+      cases h
+      simp only [need] at hf
+      have ha := repItems_all2 (represent denv g) xs.toList ns tr hitems
+      have hrt : All2 (RT env tbl f item) xs.toList ns :=
+        all2_imp_mem ha (fun x hxm n ⟨o, ho, hn⟩ => hn ▸
+          simple_described item x o ho (hx x hxm) f (by have := needL_mem xs x hxm; omega))
+      have huniq : ∀ n ∈ ns, Unique (recognizeReq env f n (.ty item)) := by
+        intro n hn
+        obtain ⟨x, _, hr⟩ := all2_mem_right hrt n hn
+        exact rt_unique hr
+      refine ⟨[okLeaf], ?_, f, rfl, RTcore.seq k item xs (Nodes.ofList ns) _ (by simpa using hrt)⟩
+      simp only [recognize, recognizeReq, recList, Nodes.toList_ofList]
+      exact recListItems_unique _ _ _ ns huniq
+  | map k V kvs hes hev hk =>
+    simp only [represent] at h
+    split at h
+    · cases h
+    · rename_i ps tr hpairs
+      cases h
+      simp only [need] at hf
+      have ha := repPairs_all2 (represent denv g) kvs.toList ps tr hpairs
+      have hrt : All2 (fun e p => RT env tbl f .str e.1 p.1 ∧ RT env tbl f V e.2 p.2) kvs.toList ps :=
+        all2_imp_mem ha (fun e hem p ⟨⟨ko, hko, hkn⟩, ⟨vo, hvo, hvn⟩⟩ => by
+          obtain ⟨s, hs⟩ := hes e hem
+          have hv := hev e hem
+          have hnk := needK_mem kvs e hem
+          have hfp : 3 ≤ f := by have := need_pos e.2; omega
+          refine ⟨?_, hvn ▸ simple_described V e.2 vo hvo hv f (by omega)⟩
+          rw [hs] at hko ⊢
+          exact hkn ▸ simple_described .str _ ko hko (HasTyE.str s) f (by simp only [need]; omega))
+      have huniq : ∀ p ∈ ps, Unique (recognizeReq env f p.1 (.ty .str)) ∧ Unique (recognizeReq env f p.2 (.ty V)) := by
+        intro p hp
+        obtain ⟨e, _, hr1, hr2⟩ := all2_mem_right hrt p hp
+        exact ⟨rt_unique hr1, rt_unique hr2⟩
+      refine ⟨[okLeaf], ?_, f, rfl,
+        RTcore.map k .str V kvs (Pairs.ofList ps) _ (by simpa using hrt) hk rfl⟩
+      simp only [recognize, recognizeReq, recDict, keyTypeOk, Bool.not_true, Bool.false_eq_true, ↓reduceIte,
+        Pairs.toList_ofList]
+      exact recDictPairs_unique _ _ _ _ ps huniq
+  | obj d kw S hkeys hvals hinit =>
+    simp only [represent] at h
+    split at h
+    · cases h
+    · rename_i dd hdd
+      -- no `_yatiml_extra` among the keyword arguments: the attribute list is the argument list
+      have hnoextra : ∀ e ∈ kw.toList, (e.1 == PyVal.scalar (.str "_yatiml_extra")) = false := by
+        intro e he
+        have : e.1 ∈ kw.toList.map (·.1) := List.mem_map.mpr ⟨e, he, rfl⟩
+        rw [hkeys] at this
+        obtain ⟨prm, hprm, hpe⟩ := List.mem_map.mp this
+        rw [← hpe]
+        have := (S.args prm hprm).2.1
+        simp [strKey, this]
+      rw [attributesOf_noExtra kw.toList hnoextra] at h
       split at h
       · cases h
       · rename_i ps tr hpairs
-        cases h
-        simp only [need] at hf
-        have ha := repPairs_all2 (represent denv g) kvs.toList ps tr hpairs
-        have hrt : All2 (fun e p => RT env tbl f .str e.1 p.1 ∧ RT env tbl f V e.2 p.2) kvs.toList ps :=
-          all2_imp_mem ha (fun e hem p ⟨⟨ko, hko, hkn⟩, ⟨vo, hvo, hvn⟩⟩ => by
-            obtain ⟨s, hs⟩ := hes e hem
-            have hv := hev e hem
-            have hnk := needK_mem kvs e hem
-            have hfp : 1 ≤ f := by have := need_pos e.2; omega
-            refine ⟨?_, hvn ▸ simple_described env denv tbl hns g V e.2 vo hvo hv f (by omega)⟩
-            rw [hs] at hko ⊢
-            exact hkn ▸ simple_described env denv tbl hns g .str _ ko hko (HasTyE.str s) f (by simp [need]; omega))
-        have huniq : ∀ p ∈ ps, Unique (recognizeReq env f p.1 (.ty .str)) ∧ Unique (recognizeReq env f p.2 (.ty V)) := by
-          intro p hp
-          obtain ⟨e, _, hr1, hr2⟩ := all2_mem_right hrt p hp
-          exact ⟨rt_unique hr1, rt_unique hr2⟩
-        refine ⟨.map k .str V, [okLeaf], ?_,
-          RTcore.map k .str V kvs (Pairs.ofList ps) _ (by simpa using hrt) hk rfl⟩
-        simp only [recognize, recognizeReq, recDict, keyTypeOk, Bool.not_true, Bool.false_eq_true, ↓reduceIte,
-          Pairs.toList_ofList]
-        exact recDictPairs_unique _ _ _ _ ps huniq
-    | obj d kw S hkeys hvals hinit =>
-      simp only [represent] at h
-      split at h
-      · cases h
-      · rename_i dd hdd
-        -- no `_yatiml_extra` among the keyword arguments: the attribute list is the argument list
-        have hnoextra : ∀ e ∈ kw.toList, (e.1 == PyVal.scalar (.str "_yatiml_extra")) = false := by
-          intro e he
-          have : e.1 ∈ kw.toList.map (·.1) := List.mem_map.mpr ⟨e, he, rfl⟩
-          rw [hkeys] at this
-          obtain ⟨prm, hprm, hpe⟩ := List.mem_map.mp this
-          rw [← hpe]
-          have := (S.args prm hprm).2.1
-          simp [strKey, this]
-        rw [attributesOf_noExtra kw.toList hnoextra] at h
         split at h
         · cases h
-        · rename_i ps tr hpairs
-          split at h
-          · cases h
-          · rename_i n tr' hsw
-            cases h
-            have := C07.sweeten_id denv hns _ _ dd (C07.find_mem denv d.name dd hdd) _ hsw
-            cases this
-            simp only [need] at hf
-            -- f + 1 ≥ 2 + needK kw ≥ 3
-            obtain ⟨b, rfl⟩ : ∃ b, f = b + 1 := ⟨f - 1, by have := needK_pos kw; omega⟩
-            have ha := repPairs_all2 (represent denv g) kw.toList ps tr hpairs
-            -- everything known about one (argument, pair)
-            have A : All2 (fun e p => ∃ prm ∈ d.params, e.1 = strKey prm.name ∧ p.1 = .scalar tStr prm.name gen ∧
-                RT env tbl (b + 1) prm.ty e.2 p.2 ∧ RT env tbl b prm.ty e.2 p.2 ∧ need e.2 ≤ b) kw.toList ps :=
-              all2_imp_mem ha (fun e hem p ⟨⟨ko, hko, hkn⟩, ⟨vo, hvo, hvn⟩⟩ => by
-                have : e.1 ∈ kw.toList.map (·.1) := List.mem_map.mpr ⟨e, hem, rfl⟩
-                rw [hkeys] at this
-                obtain ⟨prm, hprm, hpe⟩ := List.mem_map.mp this
-                have hty := hvals e hem prm hprm hpe.symm
-                have hnk := needK_mem kw e hem
-                refine ⟨prm, hprm, hpe.symm, ?_, ?_, ?_, by omega⟩
-                · rw [← hpe] at hko
-                  cases g with
-                  | zero => simp [represent] at hko
-                  | succ g' =>
-                    simp only [strKey, represent, representScalar] at hko
-                    cases hko; exact hkn.symm
-                · exact hvn ▸ simple_described env denv tbl hns g prm.ty e.2 vo hvo hty (b + 1) (by omega)
-                · exact hvn ▸ simple_described env denv tbl hns g prm.ty e.2 vo hvo hty b (by omega))
-            -- the keys of the mapping are the parameter names, in order
-            have hpskeys : ps.map (·.1) = (d.params.map (·.name)).map (fun nm => Node.scalar tStr nm gen) := by
-              have e1 : kw.toList.map (fun e => keyNodeOf e.1) = ps.map (·.1) :=
-                all2_map_eq (fun e => keyNodeOf e.1) (·.1) A (fun e p ⟨prm, _, h1, h2, _⟩ => by
-                  simp only [h1, h2, strKey, keyNodeOf])
-              rw [← e1]
-              have : kw.toList.map (fun e => keyNodeOf e.1) = (kw.toList.map (·.1)).map keyNodeOf := by
-                simp [List.map_map]
-              rw [this, hkeys]
-              simp [List.map_map, strKey, keyNodeOf, Function.comp]
-            have hdist : KeysDistinct ps := by
-              apply keysDistinct_congr ps _ _ (keysDistinct_of_names (d.params.map (·.name)) S.nodup)
-              rw [hpskeys]; simp [List.map_map, Function.comp]
-            -- every parameter is present exactly once, with a uniquely recognised value
-            have hall : ∀ prm ∈ d.params, ∃ p ∈ ps, p.1.keyIs prm.name = true ∧
-                Unique (recognizeReq env b p.2 (.ty prm.ty)) := by
-              intro prm hprm
+        · rename_i n tr' hsw
+          cases h
+          have := C07.sweeten_id denv hns _ _ dd (C07.find_mem denv d.name dd hdd) _ hsw
+          cases this
+          simp only [need] at hf
+          -- f + 1 ≥ 2 + needK kw ≥ 3
+          obtain ⟨b, rfl⟩ : ∃ b, f = b + 1 := ⟨f - 1, by have := needK_pos kw; omega⟩
+          have ha := repPairs_all2 (represent denv g) kw.toList ps tr hpairs
+          -- everything known about one (argument, pair)
+          have A : All2 (fun e p => ∃ prm ∈ d.params, e.1 = strKey prm.name ∧ p.1 = .scalar tStr prm.name gen ∧
+              RT env tbl (b + 1) prm.ty e.2 p.2 ∧ RT env tbl b prm.ty e.2 p.2 ∧ need e.2 ≤ b) kw.toList ps :=
+            all2_imp_mem ha (fun e hem p ⟨⟨ko, hko, hkn⟩, ⟨vo, hvo, hvn⟩⟩ => by
+              have : e.1 ∈ kw.toList.map (·.1) := List.mem_map.mpr ⟨e, hem, rfl⟩
+              rw [hkeys] at this
+              obtain ⟨prm, hprm, hpe⟩ := List.mem_map.mp this
+              have hty := hvals e hem prm hprm hpe.symm
+              have hnk := needK_mem kw e hem
+              refine ⟨prm, hprm, hpe.symm, ?_, ?_, ?_, by omega⟩
+              · rw [← hpe] at hko
+                cases g with
+                | zero => simp [represent] at hko
+                | succ g' =>
+                  simp only [strKey, represent, representScalar] at hko
+                  cases hko; exact hkn.symm
+              · exact hvn ▸ simple_described prm.ty e.2 vo hvo hty (b + 1) (by omega)
+              · exact hvn ▸ simple_described prm.ty e.2 vo hvo hty b (by omega))
+          -- the keys of the mapping are the parameter names, in order
+          have hpskeys : ps.map (·.1) = (d.params.map (·.name)).map (fun nm => Node.scalar tStr nm gen) := by
+            have e1 : kw.toList.map (fun e => keyNodeOf e.1) = ps.map (·.1) :=
+              all2_map_eq (fun e => keyNodeOf e.1) (·.1) A (fun e p ⟨prm, _, h1, h2, _⟩ => by
+                simp only [h1, h2, strKey, keyNodeOf])
+            rw [← e1]
+            have : kw.toList.map (fun e => keyNodeOf e.1) = (kw.toList.map (·.1)).map keyNodeOf := by
+              simp [List.map_map]
+            rw [this, hkeys]
+            simp [List.map_map, strKey, keyNodeOf, Function.comp]
+          have hdist : KeysDistinct ps := by
+            apply keysDistinct_congr ps _ _ (keysDistinct_of_names (d.params.map (·.name)) S.nodup)
+            rw [hpskeys]; simp [List.map_map, Function.comp]
+          -- every parameter is present exactly once, with a uniquely recognised value
+          have hall : ∀ prm ∈ d.params, ∃ p ∈ ps, p.1.keyIs prm.name = true ∧
+              Unique (recognizeReq env b p.2 (.ty prm.ty)) := by
+            intro prm hprm
+            have : strKey prm.name ∈ kw.toList.map (·.1) := by
+              rw [hkeys]; exact List.mem_map.mpr ⟨prm, hprm, rfl⟩
+            obtain ⟨e, he, hek⟩ := List.mem_map.mp this
+            obtain ⟨p, hp, prm', hprm', h1, h2, _, h4, _⟩ := All2.mem_left A e he
+            have hnm : prm'.name = prm.name := by
+              rw [h1] at hek; simpa [strKey] using hek
+            have hpp : prm' = prm := eq_of_name d.params S.nodup prm' hprm' prm hprm hnm
+            subst hpp
+            exact ⟨p, hp, by rw [h2]; simp [keyIs_scalar], rt_unique h4⟩
+          have hrec := recognize_simple_obj env d S b ps gen hdist hall
+          refine ⟨[okLeaf], hrec, b + 1, rfl, ?_⟩
+          refine RTcore.obj d.name kw (Pairs.ofList ps) gen d kw.toList [] ps [] S.found S.kind ?_
+          exact {
+            sav := by simp [savorize, S.noBases, S.sav]
+            psEq := by rw [Pairs.toList_ofList, List.append_nil]
+            kwEq := by simp [S.noExtra]
+            noExtra := fun _ => rfl
+            main := by
+              exact all2_imp_mem A (fun e hem p ⟨prm, hprm, h1, h2, h3, _, hn⟩ =>
+                ⟨prm.name, gen, prm, h1, h2, hprm, rfl, h3,
+                  hasTyE_typeMatches env b prm.ty e.2 hn (hvals e hem prm hprm h1)⟩)
+            extra := All2.nil
+            distinct := by simpa [KeysDistinct] using hdist
+            required := by
+              intro prm hprm _
               have : strKey prm.name ∈ kw.toList.map (·.1) := by
                 rw [hkeys]; exact List.mem_map.mpr ⟨prm, hprm, rfl⟩
               obtain ⟨e, he, hek⟩ := List.mem_map.mp this
-              obtain ⟨p, hp, prm', hprm', h1, h2, _, h4, _⟩ := All2.mem_left A e he
-              have hnm : prm'.name = prm.name := by
-                rw [h1] at hek; simpa [strKey] using hek
-              have hpp : prm' = prm := eq_of_name d.params S.nodup prm' hprm' prm hprm hnm
-              subst hpp
-              exact ⟨p, hp, by rw [h2]; simp [keyIs_scalar], rt_unique h4⟩
-            have hrec := recognize_simple_obj env d S b ps gen hdist hall
-            refine ⟨.cls d.name, [okLeaf], hrec, ?_⟩
-            refine RTcore.obj d.name kw (Pairs.ofList ps) gen d kw.toList [] ps [] S.found S.kind ?_
-            exact {
-              sav := by simp [savorize, S.noBases, S.sav]
-              psEq := by rw [Pairs.toList_ofList, List.append_nil]
-              kwEq := by simp [S.noExtra]
-              noExtra := fun _ => rfl
-              main := by
-                exact all2_imp_mem A (fun e hem p ⟨prm, hprm, h1, h2, h3, _, hn⟩ =>
-                  ⟨prm.name, gen, prm, h1, h2, hprm, rfl, h3,
-                    hasTyE_typeMatches env b prm.ty e.2 hn (hvals e hem prm hprm h1)⟩)
-              extra := All2.nil
-              distinct := by simpa [KeysDistinct] using hdist
-              required := by
-                intro prm hprm _
-                have : strKey prm.name ∈ kw.toList.map (·.1) := by
-                  rw [hkeys]; exact List.mem_map.mpr ⟨prm, hprm, rfl⟩
-                obtain ⟨e, he, hek⟩ := List.mem_map.mp this
-                exact ⟨e, he, hek⟩
-              paramsNodup := S.nodup
-              argsParams := S.args
-              init := hinit }
+              exact ⟨e, he, hek⟩
+            paramsNodup := S.nodup
+            argsParams := S.args
+            init := hinit }
+
+/-! ### `Optional[T]` -/
+
+theorem dropBoolFix_single (R : Ty) : dropBoolFix [R] = [R] := by
+  unfold dropBoolFix
+  split
+  · rename_i h
+    simp only [List.contains_cons, List.contains_nil, Bool.or_false, Bool.and_eq_true, beq_iff_eq] at h
+    obtain ⟨h1, h2⟩ := h
+    rw [← h1] at h2; cases h2
+  · rfl
+
+/-- recognising `Union[T, None]` when exactly one of the two members recognises the node, as one type -/
+theorem recUnion_opt (rec : Node → Ty → RecRes) (n : Node) (T R : Ty) (l1 l2 : List Leaf)
+    (h : (rec n T = .ok ([R], l1) ∧ rec n .null = .ok ([], l2)) ∨
+         (rec n T = .ok ([], l1) ∧ rec n .null = .ok ([R], l2))) :
+    recUnion rec n [T, .null] = .ok ([R], [okLeaf]) := by
+  rcases h with ⟨h1, h2⟩ | ⟨h1, h2⟩ <;>
+    simp [recUnion, recUnionMembers, h1, h2, unionT, insertT, dropBoolFix_single]
+
+theorem tNull_ne_str : (tNull == tStr) = false := by decide
+theorem tNull_ne_int : (tNull == tInt) = false := by decide
+theorem tNull_ne_bool : (tNull == tBool) = false := by decide
+theorem tStr_ne_null : (tStr == tNull) = false := by decide
+theorem tInt_ne_null : (tInt == tNull) = false := by decide
+theorem tBool_ne_null : (tBool == tNull) = false := by decide
+
+theorem reject_null (env : Env) (T : Ty) (hnn : NonNullTy env T) (b : Nat) (s : String) (m : Mark) :
+    ∃ l, recognizeReq env (b + 2) (.scalar tNull s m) (.ty T) = .ok ([], l) := by
+  cases hnn with
+  | str => simp only [recognizeReq, recScalar, tNull_ne_str, Bool.false_eq_true, if_false, recFail]; exact ⟨_, rfl⟩
+  | int => simp only [recognizeReq, recScalar, tNull_ne_int, Bool.false_eq_true, if_false, recFail]; exact ⟨_, rfl⟩
+  | bool => simp only [recognizeReq, recScalar, tNull_ne_bool, Bool.false_eq_true, if_false, recFail]; exact ⟨_, rfl⟩
+  | seq k item => simp only [recognizeReq, recList, recFail]; exact ⟨_, rfl⟩
+  | map k V =>
+    simp only [recognizeReq, recDict, keyTypeOk, Bool.not_true, Bool.false_eq_true, if_false, recFail]
+    exact ⟨_, rfl⟩
+  | cls d S =>
+    have hreg := find_isRegistered env d.name d S.found
+    simp only [recognizeReq, hreg, if_true, S.found, S.noSub, recSubclasses, List.length_nil, BEq.rfl,
+      S.concrete, Bool.false_eq_true, if_false, recUserClass, S.recog, S.kind, recFail, finishClasses,
+      List.nil_append]
+    exact ⟨_, rfl⟩
+
+/-- a node that describes a value of a type other than `None` is not recognised as `None` -/
+theorem null_rejects (env : Env) (tbl : List Entry) (f : Nat) (rt : Ty → PyVal → Node → Prop)
+    (T : Ty) (v : PyVal) (n : Node) (hc : RTcore env tbl f rt T v n) (hnn : NonNullTy env T) (b : Nat) :
+    ∃ l, recognizeReq env (b + 1) n (.ty .null) = .ok ([], l) := by
+  cases hc with
+  | str s m => simp only [recognizeReq, recScalar, tStr_ne_null, Bool.false_eq_true, if_false, recFail]; exact ⟨_, rfl⟩
+  | int i s m _ => simp only [recognizeReq, recScalar, tInt_ne_null, Bool.false_eq_true, if_false, recFail]; exact ⟨_, rfl⟩
+  | bool b' s m _ => simp only [recognizeReq, recScalar, tBool_ne_null, Bool.false_eq_true, if_false, recFail]; exact ⟨_, rfl⟩
+  | seq k item xs ns m _ => simp only [recognizeReq, recScalar, recFail]; exact ⟨_, rfl⟩
+  | map k K V kvs ps m _ _ _ => simp only [recognizeReq, recScalar, recFail]; exact ⟨_, rfl⟩
+  | enum c name m d members _ _ _ _ =>
+    simp only [recognizeReq, recScalar, tStr_ne_null, Bool.false_eq_true, if_false, recFail]; exact ⟨_, rfl⟩
+  | userStr c s m d _ _ _ _ =>
+    simp only [recognizeReq, recScalar, tStr_ne_null, Bool.false_eq_true, if_false, recFail]; exact ⟨_, rfl⟩
+  | obj c kw ps m d _ _ _ _ _ _ _ => simp only [recognizeReq, recScalar, recFail]; exact ⟨_, rfl⟩
+  | float _ _ _ _ _ => cases hnn
+  | boolFix _ _ _ _ => cases hnn
+  | null _ _ => cases hnn
+  | date _ _ _ _ => cases hnn
+  | path _ _ _ => cases hnn
+  | any _ _ _ _ => cases hnn
+
+theorem nonNull_value (env : Env) (T : Ty) (v : PyVal) (hnn : NonNullTy env T) (h : HasTyE env T v) :
+    v ≠ .scalar .none := by
+  intro e
+  subst e
+  cases h with
+  | null => cases hnn
+  | optNone T' _ => cases hnn
+  | optSome T' _ _ _ => cases hnn
+
+theorem resolved_opt_some (T : Ty) (v : PyVal) (hv : v ≠ .scalar .none) : resolvedTy (optTy T) v = T := by
+  simp [resolvedTy, optTy, hv]
+
+/-- **The representers' node describes the value**, for plain data, objects of simple classes and
+`Optional` positions, nested to any depth: recognition singles out one type at every node, and the node has
+the shape the loader turns back into the value. -/
+theorem simple_described (env : Env) (denv : DumpEnv) (tbl : List Entry) (hns : C07.NoSweeten denv) :
+    ∀ (g : Nat) (T : Ty) (v : PyVal) (o : RepOut), represent denv g v = .ok o → HasTyE env T v →
+      ∀ f, need v ≤ f → Desc env tbl f T v o.node
+  | 0, _, _, _, h, _, _, _ => by simp [represent] at h
+  | g + 1, T, v, o, h, ht, f, hf => by
+    have IH := simple_described env denv tbl hns g
+    have core := desc_core env denv tbl hns g IH
+    have plain : ∀ (hno : ∀ T', T ≠ optTy T'), Desc env tbl f T v o.node := by
+      intro hno
+      unfold Desc
+      rw [resolved_self T v hno]
+      exact core T v o h ht hno f (by omega)
+    cases ht with
+    | str s => exact plain (by intro T' e; simp [optTy] at e)
+    | int i => exact plain (by intro T' e; simp [optTy] at e)
+    | bool b => exact plain (by intro T' e; simp [optTy] at e)
+    | null => exact plain (by intro T' e; simp [optTy] at e)
+    | seq k item xs hx => exact plain (by intro T' e; simp [optTy] at e)
+    | map k V kvs hk hv hko => exact plain (by intro T' e; simp [optTy] at e)
+    | obj d kw hS h1 h2 h3 => exact plain (by intro T' e; simp [optTy] at e)
+    | optNone T hnn =>
+      simp only [represent, representScalar] at h; cases h
+      simp only [need] at hf
+      obtain ⟨b, rfl⟩ : ∃ b, f = b + 3 := ⟨f - 3, by omega⟩
+      obtain ⟨l1, h1⟩ := reject_null env T hnn b "null" gen
+      have h2 : recognizeReq env (b + 2) (.scalar tNull "null" gen) (.ty .null) = .ok ([.null], [okLeaf]) := by
+        simp [recognizeReq, recScalar, recOk]
+      have hrec : recognize env (b + 3) (.scalar tNull "null" gen) (optTy T) = .ok ([.null], [okLeaf]) := by
+        simp only [recognize, optTy, recognizeReq, Tys.toList]
+        exact recUnion_opt _ _ T .null l1 [okLeaf] (Or.inr ⟨h1, h2⟩)
+      exact ⟨[okLeaf], by simpa [resolvedTy, optTy] using hrec, b + 2, rfl,
+        by simpa [resolvedTy, optTy] using (RTcore.null "null" gen)⟩
+    | optSome T v hnn hin =>
+      have hno := nonNull_not_opt env T hnn
+      have hv := nonNull_value env T v hnn hin
+      have hpos := need_pos v
+      obtain ⟨f', rfl⟩ : ∃ f', f = f' + 1 := ⟨f - 1, by omega⟩
+      -- the member `T`, one level down, and at this level (for the shape)
+      obtain ⟨l1, hr1, fa, hfa, _⟩ := core T v o h hin hno f' (by omega)
+      obtain ⟨l2, _, fb, hfb, hcore⟩ := core T v o h hin hno (f' + 1) (by omega)
+      have hfb' : fb = f' := by omega
+      rw [hfb'] at hcore
+      obtain ⟨f'', rfl⟩ : ∃ f'', f' = f'' + 1 := ⟨f' - 1, by omega⟩
+      obtain ⟨l3, hr3⟩ := null_rejects env tbl (f'' + 1) _ T v o.node hcore hnn f''
+      have hrec : recognize env (f'' + 1 + 1) o.node (optTy T) = .ok ([T], [okLeaf]) := by
+        simp only [recognize, optTy, recognizeReq, Tys.toList]
+        exact recUnion_opt _ _ T T l1 l3 (Or.inl ⟨hr1, hr3⟩)
+      unfold Desc
+      rw [resolved_opt_some T v hv]
+      exact ⟨[okLeaf], hrec, f'' + 1, rfl, hcore⟩
 
 end YatimlModel.C05
 
@@ -374,8 +580,8 @@ namespace YatimlModel.C05
 open YatimlModel
 
 /-- **Round trip for simple objects (node level), closed form.**  For every class model, resolver table
-and value made of plain data and objects of *simple* classes (plain, no hooks, no `_yatiml_extra`, no
-registered bases or subclasses, not abstract), nested to any depth: if the dump side has no
+and value made of plain data, objects of *simple* classes (plain, no hooks, no `_yatiml_extra`, no
+registered bases or subclasses, not abstract) and `Optional[...]` positions, nested to any depth: if the dump side has no
 `_yatiml_sweeten` hooks, the node tree the representers build loads back — with enough fuel for the
 depth of the value — as exactly that value: same classes, equal attribute values, same list and mapping
 order.  No precondition about recognition: its uniqueness at every node is derived. -/
@@ -383,7 +589,7 @@ theorem C05_simple_objects_roundtrip (env : Env) (denv : DumpEnv) (tbl : List En
     (hns : C07.NoSweeten denv) (g f : Nat) (T : Ty) (v : PyVal) (o : RepOut)
     (hrep : represent denv g v = .ok o) (hty : HasTyE env T v) (hf : need v ≤ f) :
     ∃ calls trace processed, loadNode env tbl f o.node T = .ok ⟨v, calls, trace, processed⟩ :=
-  RT_load env tbl f T v o.node (simple_described env denv tbl hns g T v o hrep hty f hf)
+  RT_load env tbl f T v o.node (desc_rt (simple_described env denv tbl hns g T v o hrep hty f hf))
 
 end YatimlModel.C05
 
@@ -422,6 +628,11 @@ theorem pointV_typed (x : Int) (l : String) : HasTyE envS (.cls "Point") (pointV
   simp [pointD] at hp
   rcases he with rfl | rfl <;> rcases hp with rfl | rfl <;> simp [strKey] at hk <;>
     first | exact HasTyE.int _ | exact HasTyE.str _
+
+-- `Optional[Point]` positions: `None` and a `Point`
+example : HasTyE envS (optTy (.cls "Point")) (.scalar .none) := HasTyE.optNone _ (NonNullTy.cls pointD pointD_simple)
+example : HasTyE envS (optTy (.cls "Point")) (pointV 7 "null") :=
+  HasTyE.optSome _ _ (NonNullTy.cls pointD pointD_simple) (pointV_typed _ _)
 
 example : HasTyE envS (.cls "Line")
     (.obj "Line" (PyKVs.ofList [(strKey "start", pointV 1 "1e5"),
